@@ -32,6 +32,26 @@ claimed = {
    text="Effect contract: for every receiver function, DryRun (at entry) implies no file-system write effect on any path; callees that write unconditionally carry the precondition !DryRun which is proved at each call site; the sender transmits file data (calls sendFile/hashSearch) only when dry_run is 0. Three unguarded mutation sites were found as failing obligations, replayed on the real code and fixed.",
    note="Trusted: effect table. Creating the destination directory itself (outside the statement: 'inside an existing destination') is not an obligation.",
    design="4.10"),
+ "C09": dict(
+   text="Functional contracts proved on the real code: sortFileList establishes 'sorted by name' (sort.Slice contract with the real comparator captured as a predicate); findInFileList(list, name) <=> membership, for every sorted list, via the sort.Search contract (monotonicity of the real predicate is derived from sortedness and the string-order axioms); the delete callback, per visited entry: listed => kept, extraneous => RemoveAll on the destination root unless dry run, walk errors passed on, SkipDir only for directories; deleteFiles: nothing removed when the sender reported I/O errors, and a walk is started whenever the list contains the top directory; Do: nothing removed without --delete; ClientRun/handleConnReceiver pass a sorted list.",
+   note="Trusted: fs.WalkDir's traversal (per-entry contract => whole tree is not machine-checked), sort.Slice/sort.Search, RemoveAll. Not covered (recorded in DESIGN.md): exclude rules are unknown to the deleting receiver; --delete is not forwarded when pushing.",
+   design="4.9"),
+ "C11": dict(
+   text="Ghost file-system metadata map (mtime seconds, permission bits, uid, gid per (root, name)) updated only by the Chtimes/Chmod/Lchown contracts and read by Lstat: setPerms is proved to leave the entry with the requested mtime (to the second) and permission bits, to leave symlinks and dry runs untouched and every other entry unchanged; setUid changes owner/group exactly under the preserve options and privilege; FileMode maps protocol type bits to Go mode bits; recvGenerator: without -p an existing regular destination file keeps its permission bits (found failing on the pinned tree for up-to-date files, replayed, fixed).",
+   note="Partial: device numbers, symlink targets, directory touch-up and the sender's mode encoding are not yet under contract. Trusted: syscall semantics via *os.Root, Lstat reports current metadata, numeric ids.",
+   design="4.11"),
+ "C12": dict(
+   text="The update rule is proved bit-exact on the real skipFile/recvGenerator: for a regular-file entry the generator writes a request iff the destination is missing, or not regular, or its size differs, or (with -c) its MD4 differs, or (-I) always, or its mtime differs at one-second granularity - six labelled postconditions over all sizes, times and option values; modTimeEqual <=> equal seconds; RootChecksum = MD4 of the file content; setPerms sets mtime to the second (the other half of repeat-sync idempotence).",
+   note="Trusted: time.Time contracts, Lstat, io.Copy; the composition 'second run requests nothing' is two proved halves, not a machine-checked session property.",
+   design="4.12"),
+ "C13": dict(
+   text="filterRuleList.matches is proved equal to the recursive specification 'the first rule whose (base)name matches decides: exclude => out, include => in, none => in' for every rule list and name (loop invariant over a recursive spec function); rule matching = whole name if the pattern has a slash, base name otherwise; parseFilter maps '- x' / '+ x'; the walk callback answers SkipDir only for directories. Two defects (include acted as exclude; an excluded file hid its later siblings) were found as failing obligations, replayed and fixed.",
+   note="Trusted: fs.WalkDir pruning, filepath.Base. Not covered: the rule-list transmission round trip; client-as-sender passes no rules (recorded in DESIGN.md).",
+   design="4.13"),
+ "C19": dict(
+   text="checkACL is proved against the first-match specification for every rule list and address: empty list grants; unparsable address denies; otherwise nil <=> (the first rule that is not skipped [well formed and not covering the address] is a well-formed covering allow rule) or every rule is skipped - reaching a malformed rule is an error (nested-quantifier postcondition, loop invariant 'all earlier rules were skipped'). HandleDaemonConn: handleConn is reached only after checkACL returned nil for the requested module's own ACL list and this connection's address.",
+   note="Trusted: net.SplitHostPort/ParseIP/ParseCIDR/IPNet.Contains (IPv4, IPv6, v4-mapped handling lives there), strings.Index.",
+   design="4.19"),
 }
 not_yet = "check not built yet in this session (work in progress; see DESIGN.md for the planned contract)"
 na = {"C18": "liveness under all schedules / deadlock freedom / data-race freedom are whole-history and concurrency properties; per-function pre/postconditions over sequential SSA cannot express them and govc has no model of goroutines or channels (DESIGN.md §4.18)"}
